@@ -125,9 +125,9 @@ pub fn spec() -> CheckSpec {
         level: "exploration",
         rule: "C01 worlds with a second group sharing members, id rotations, relay/admin/image updates, merges/clears, rollbacks, restarts; after every API call: stored record and relays of every active group equal load_mls_group + NostrGroupDataExtension, lookup by the id in force returns this group, a delivered event is never answered 'group not found' by an active member and never changes another group; non-trivial = id rotation, rollback or restart between an epoch change and the next lookup; distinct = delivery signature",
         variants: vec![
-            Variant { name: "mem", profile: Profile { backend: BackendMix::Memory, ..base.clone() }, runs_quick: 300, runs_thorough: 15000, oracle: mk, guarded: false, configure_gen: Some(more_rotation), post: None },
-            Variant { name: "mixed-restart", profile: Profile { backend: BackendMix::Mixed, allow_restart: true, ..base.clone() }, runs_quick: 120, runs_thorough: 6000, oracle: mk, guarded: false, configure_gen: Some(more_rotation), post: None },
-            Variant { name: "mixed-guarded", profile: Profile { backend: BackendMix::Mixed, allow_restart: true, guards: guards.clone(), ..base.clone() }, runs_quick: 120, runs_thorough: 6000, oracle: mk, guarded: true, configure_gen: None, post: None },
+            Variant { name: "mem", profile: Profile { backend: BackendMix::Memory, ..base.clone() }, runs_quick: 300, runs_thorough: 15000, oracle: mk, guarded: false, configure_gen: Some(more_rotation), post: None, custom: None },
+            Variant { name: "mixed-restart", profile: Profile { backend: BackendMix::Mixed, allow_restart: true, ..base.clone() }, runs_quick: 120, runs_thorough: 6000, oracle: mk, guarded: false, configure_gen: Some(more_rotation), post: None, custom: None },
+            Variant { name: "mixed-guarded", profile: Profile { backend: BackendMix::Mixed, allow_restart: true, guards: guards.clone(), ..base.clone() }, runs_quick: 120, runs_thorough: 6000, oracle: mk, guarded: true, configure_gen: None, post: None, custom: None },
         ],
         assumptions: vec!["honest members only"],
         real: super::REAL.to_vec(),
